@@ -8,6 +8,7 @@
 from pymtl3.passes.backends.generic.behavioral.BehavioralTranslatorL2 import (
     BehavioralTranslatorL2,
 )
+from pymtl3.dsl import Component
 from pymtl3.passes.rtlir import BehavioralRTLIR as bir
 from pymtl3.passes.rtlir import RTLIRType as rt
 
@@ -132,7 +133,7 @@ class BehavioralRTLIRToVVisitorL2( BehavioralRTLIRToVVisitorL1 ):
 
     src      = []
     body     = []
-    loop_var = s.visit( node.var )
+    loop_var = s._loopvar_name( s.visit( node.var ) )
     start    = s.visit( node.start )
     end      = s.visit( node.end )
 
@@ -242,10 +243,22 @@ class BehavioralRTLIRToVVisitorL2( BehavioralRTLIRToVVisitorL1 ):
   # visit_LoopVar
   #-----------------------------------------------------------------------
 
+  def _loopvar_name( s, name ):
+    """Return the name of the `int unsigned` variable of a for loop.
+
+    A loop variable named like a signal or constant of the component would
+    shadow it inside the loop body ( `o[2'(i)] = i[2'(i)]` ); such a loop
+    variable is renamed the way the yosys backend names all of them.
+    """
+    for obj in s.closure.values():
+      if isinstance( obj, Component ) and hasattr( obj, name ):
+        return f"__loopvar__{s.blk.__name__}_{name}"
+    return name
+
   def visit_LoopVar( s, node ):
     s.check_res( node, node.name )
     nbits = node.Type.get_dtype().get_length()
-    return f"{nbits}'({node.name})"
+    return f"{nbits}'({s._loopvar_name( node.name )})"
 
   #-----------------------------------------------------------------------
   # visit_TmpVar
